@@ -26,6 +26,24 @@ type disc struct {
 	order   []string // insertion order is irrelevant; kept for determinism of iteration
 	claimed map[string][]string
 	unsafeK []string
+	// a fetched collection changed since the last barrier and the transformation fetches (Lean: secDirty)
+	secDirty bool
+}
+
+// noteOp: bookkeeping by the name of the op (Lean: the first line of stepD).
+func (d *disc) noteOp(op string) {
+	if d.started && len(d.T.Fetches) > 0 && (strings.HasPrefix(op, "s.") || strings.HasPrefix(op, "t.")) {
+		d.secDirty = true
+	}
+}
+
+func (d *disc) currentByOther(p, k string) bool {
+	for q, o := range d.prim {
+		if q != p && contains(d.claimsOf(o), k) {
+			return true
+		}
+	}
+	return false
 }
 
 func newDisc(t Transform, flagged bool) *disc {
@@ -50,7 +68,11 @@ func (d *disc) noteSet(o Obj) {
 	p := o.ResourceName()
 	cl := d.claimsOf(o)
 	for _, k := range cl {
-		if d.claimedByOther(p, k) && !contains(d.unsafeK, k) {
+		bad := d.claimedByOther(p, k)
+		if d.flagged { // the known class exactly: the new parent can be applied before the old one released the key
+			bad = bad && (d.secDirty || d.currentByOther(p, k))
+		}
+		if bad && !contains(d.unsafeK, k) {
 			d.unsafeK = append(d.unsafeK, k)
 		}
 	}
@@ -58,6 +80,7 @@ func (d *disc) noteSet(o Obj) {
 }
 
 func (d *disc) barrier() {
+	d.secDirty = false
 	d.claimed = map[string][]string{}
 	for p, o := range d.prim {
 		d.claimed[p] = d.claimsOf(o)
@@ -165,11 +188,13 @@ type fetchSrc struct {
 	col krt.Collection[Obj]
 	ns  krt.Index[string, Obj]
 	val krt.Index[string, Obj]
+	out krt.Index[string, Obj] // several keys per object
 }
 
 func newFetchSrc(c krt.Collection[Obj]) *fetchSrc {
 	return &fetchSrc{col: c, ns: krt.NewNamespaceIndex[Obj](c),
-		val: krt.NewIndex[string, Obj](c, "val", func(o Obj) []string { return []string{o.Val} })}
+		val: krt.NewIndex[string, Obj](c, "val", func(o Obj) []string { return []string{o.Val} }),
+		out: krt.NewIndex[string, Obj](c, "outs", func(o Obj) []string { return o.Outs })}
 }
 
 type caseRun struct {
@@ -188,10 +213,11 @@ type caseRun struct {
 	unsafeJ bool
 	der     krt.Collection[Out]
 	chain   bool
-	single1 bool // krt.NewSingleton: the transformation of the constant input singletonInput
+	single1 bool                // krt.NewSingleton: the transformation of the constant input singletonInput
 	top     krt.Collection[Out] // the observed collection: der, or a collection chained behind it
 	derIdx  krt.Index[string, Out]
 	lateIdx krt.Index[string, Out]
+	lateUn  krt.Index[string, Out]        // the same extractor through krt.UnnamedIndex
 	gate    atomic.Pointer[chan struct{}] // exact stream: holds the queue worker inside the transformation of input `zz`
 	subs    map[string]*subscriber
 	psubs   map[string]*subscriber
@@ -226,6 +252,8 @@ func (c *caseRun) fetchOpts(i Obj, f []Atom, src *fetchSrc) []krt.FetchOption {
 			opts = append(opts, krt.FilterIndex(src.ns, i.NS))
 		case "valIndex":
 			opts = append(opts, krt.FilterIndex(src.val, i.Val))
+		case "outIndex":
+			opts = append(opts, krt.FilterIndex(src.out, outKeyOf(i)))
 		case "keys":
 			opts = append(opts, krt.FilterKeys(i.Ref, i.NS+"/x"))
 		case "objName":
@@ -305,6 +333,28 @@ func (c *caseRun) fetchFn(ctx krt.HandlerContext, i Obj) func(n int, f []Atom) [
 	}
 }
 
+// reindex: istio asks for an index by name again and again (NewNamespaceIndex on the same collection in several
+// places); the first handle, which the harness keeps for its lookups and fetches, must stay maintained.
+func (c *caseRun) reindex() {
+	if c.der == nil {
+		return
+	}
+	_ = krt.NewIndex[string, Out](c.top, "ns", func(o Out) []string { return []string{o.NS} })
+	for _, src := range []*fetchSrc{c.srcA, c.srcB} {
+		if src != nil {
+			_ = newFetchSrc(src.col)
+		}
+	}
+	if c.lateIdx != nil {
+		_ = krt.NewIndex[string, Out](c.top, "fetched", func(o Out) []string { return outFetched(o.Val) })
+	}
+}
+
+func sameEntries(a, b []Out) bool {
+	all := func(string) bool { return true }
+	return showEntries(a, all) == showEntries(b, all)
+}
+
 func (c *caseRun) start() {
 	if c.der != nil {
 		return
@@ -313,8 +363,9 @@ func (c *caseRun) start() {
 	// the fetched collections and their indexes are created here, on already populated collections
 	switch c.secmode {
 	case "sd":
+		// WithObjectAugmentation: the filters of a fetch see what the function returns (here: the object itself)
 		c.srcA = newFetchSrc(krt.NewCollection[Obj, Obj](c.sec, func(ctx krt.HandlerContext, o Obj) *Obj { return &o },
-			krt.WithStop(c.stop), krt.WithName("secD")))
+			krt.WithStop(c.stop), krt.WithName("secD"), krt.WithObjectAugmentation(func(o any) any { return o })))
 	case "sj":
 		c.srcA = newFetchSrc(krt.JoinCollection([]krt.Collection[Obj]{c.sec, c.sec2}, krt.WithStop(c.stop), krt.WithName("secJ")))
 	case "s2":
@@ -323,7 +374,11 @@ func (c *caseRun) start() {
 	default:
 		c.srcA = newFetchSrc(c.sec)
 	}
-	if c.single1 {
+	if c.single1 && t.Multi {
+		c.der = krt.NewManyFromNothing[Out](func(ctx krt.HandlerContext) []Out {
+			return outputs(t, singletonInput, c.fetchFn(ctx, singletonInput))
+		}, krt.WithStop(c.stop), krt.WithName("fromNothing"))
+	} else if c.single1 {
 		c.der = krt.NewSingleton[Out](func(ctx krt.HandlerContext) *Out {
 			o := outputs(t, singletonInput, c.fetchFn(ctx, singletonInput))
 			if len(o) == 0 {
@@ -461,6 +516,7 @@ func filterToks(evs []string, keep func(k string) bool) []string {
 // step executes one op line on the real collections; returns (impl line, trace line).
 func (c *caseRun) step(toks []string) (string, string) {
 	line := strings.Join(toks, " ")
+	c.d.noteOp(toks[0])
 	answer := func(u bool, body func() string) string {
 		if g := c.guard(); g != "" {
 			return g
@@ -566,6 +622,7 @@ func (c *caseRun) step(toks []string) (string, string) {
 		if c.der != nil && c.lateIdx == nil {
 			// created on an already populated collection; the extractor returns 0, 1 or several keys
 			c.lateIdx = krt.NewIndex[string, Out](c.top, "fetched", func(o Out) []string { return outFetched(o.Val) })
+			c.lateUn = krt.UnnamedIndex[string, Out](c.top, func(o Out) []string { return outFetched(o.Val) })
 		}
 		return "ok", line
 	case toks[0] == "psub" && len(toks) == 3:
@@ -661,7 +718,12 @@ func (c *caseRun) step(toks []string) (string, string) {
 			if c.lateIdx == nil {
 				return "no-index"
 			}
-			return showEntries(c.lateIdx.Lookup(toks[1]), func(k string) bool { return !c.d.inU(k) })
+			c.reindex()
+			res := c.lateIdx.Lookup(toks[1])
+			if !sameEntries(res, c.lateUn.Lookup(toks[1])) {
+				return "inconsistent:UnnamedIndex"
+			}
+			return showEntries(res, func(k string) bool { return !c.d.inU(k) })
 		}), line
 	case toks[0] == "pstream" && len(toks) == 2:
 		return streamOf("pstream", c.psubs, false, false)
@@ -679,6 +741,11 @@ func (c *caseRun) step(toks []string) (string, string) {
 				return "masked"
 			}
 			o := c.top.GetKey(toks[1])
+			// the one-time list without a context must say the same
+			fl := krt.FetchOrList[Out](nil, c.top, krt.FilterKey(toks[1]))
+			if (o == nil) != (len(fl) == 0) || len(fl) > 1 || (o != nil && (fl[0].Key != o.Key || fl[0].Val != o.Val)) {
+				return "inconsistent:FetchOrList"
+			}
 			if o == nil {
 				return "none"
 			}
@@ -689,7 +756,12 @@ func (c *caseRun) step(toks []string) (string, string) {
 		}), line
 	case toks[0] == "lookup" && len(toks) == 2:
 		return "lookup " + answer(false, func() string {
-			return showEntries(c.derIdx.Lookup(toks[1]), func(k string) bool { return !c.d.inU(k) })
+			c.reindex()
+			res := c.derIdx.Lookup(toks[1])
+			if !sameEntries(res, krt.FetchOrList[Out](nil, c.top, krt.FilterIndex(c.derIdx, toks[1]))) {
+				return "inconsistent:FetchOrList"
+			}
+			return showEntries(res, func(k string) bool { return !c.d.inU(k) })
 		}), line
 	case toks[0] == "ulookup" && len(toks) == 2:
 		return "ulookup " + answer(true, func() string { return showEntries(c.derIdx.Lookup(toks[1]), c.d.inU) }), line
@@ -760,7 +832,7 @@ type runner interface {
 func (c *caseRun) close() { close(c.stop) }
 
 // singletonInput is the constant input of the singleton cases (Lean: singletonInput).
-var singletonInput = Obj{NS: "n1", Name: "s", Labels: map[string]string{"l1": "1"}, Sel: map[string]string{"l1": "1"}, Ref: "n1/x", Val: "v1"}
+var singletonInput = Obj{NS: "n1", Name: "s", Labels: map[string]string{"l1": "1"}, Sel: map[string]string{"l1": "1"}, Outs: []string{"k1", "k3"}, Ref: "n1/x", Val: "v1"}
 
 func (c *caseRun) setFlags(flags []string) {
 	c.chain = contains(flags, "chain")
